@@ -400,3 +400,109 @@ def make_carrier(leaves, extra_wrappers=()):
 
 INT_CARRIER = make_carrier(_INTS | {"mos_core::codegen::program_counter::ProgramCounter", "mos_core::codegen::SymbolData",
                                      "mos_core::codegen::MacroDefinition"})
+
+
+# ---------------------------------------------------------------- constant range guards
+
+class Bounds:
+    """values known to lie in a small constant range at a program point:
+       `if !(LO..=HI).contains(&x) { return Err(..) }`  — x ∈ [LO, HI] in every block dominated by the `true` successor.
+    The range literal is a promoted constant in MIR, so its bounds are read from the HIR call on the same line."""
+
+    LIMIT = 1 << 32
+
+    def __init__(self, fx, fn):
+        self.fn = fn
+        self.guards = []          # (true-successor block, local, lo, hi)
+        self.du = lib.DefUse(fn)
+        owner = fn
+        while owner.kind == "closure" and owner.d.get("parent") in fx.fns:
+            owner = fx.fns[owner.d["parent"]]
+        hir_ranges = {}
+        if owner.d.get("hir"):
+            for x in lib.hwalk(owner.hir["body"]):
+                if x.get("k") == "mcall" and lib.pm(x.get("path"), "RangeInclusive::contains"):
+                    ends = []
+                    for e in lib.hwalk(lib.strip(x["recv"])):
+                        if e.get("k") == "unary" and e["op"] == "Neg" and lib.hlit(e["a"]) is not None:
+                            ends.append(-lib.hlit(e["a"]))
+                        elif e.get("k") == "lit" and e.get("lk") == "int":
+                            ends.append(e["v"])
+                    if len(ends) == 3 and ends[0] == -ends[1]:
+                        ends = [ends[0], ends[2]]
+                    if len(ends) == 2:
+                        hir_ranges.setdefault(x.get("ln"), []).append(tuple(ends))
+        from .c04 import dst_switch_true_succ
+        for bi, t in lib.calls(fn):
+            if not lib.pm(lib.callee(t)[0], "RangeInclusive::contains"):
+                continue
+            rs = hir_ranges.get(t.get("line"))
+            if not rs or len(rs) != 1:
+                continue
+            lo, hi = rs[0]
+            # the tested value: &x  (through one re-borrow)
+            p = lib.op_place(t["args"][1])
+            x = self._deref_source(p["l"]) if p else None
+            ts = dst_switch_true_succ(fn, bi)
+            if x is not None and ts is not None:
+                self.guards.append((ts, x, lo, hi))
+
+    def _deref_source(self, l, depth=4):
+        while depth > 0:
+            depth -= 1
+            d = self.du.single_def(l)
+            if not d or d[2] != "assign":
+                return None
+            rv = d[3]["rv"]
+            if rv["k"] == "ref":
+                pl = rv["place"]
+                if not pl.get("p"):
+                    return pl["l"]
+                if pl.get("p") == ["deref"]:
+                    l = pl["l"]
+                    continue
+                return None
+            return None
+        return None
+
+    def range_of(self, op, bi, depth=14):
+        """(lo, hi) if the operand is known to be within a small constant range in block bi, else None"""
+        c = lib.const_int(op)
+        if c is not None:
+            return (c, c) if abs(c) <= self.LIMIT else None
+        l = lib.op_local(op)
+        if l is None or depth <= 0:
+            return None
+        for ts, x, lo, hi in self.guards:
+            if x == l and lib.dominates(self.fn, ts, bi) and abs(lo) <= self.LIMIT and abs(hi) <= self.LIMIT:
+                return (lo, hi)
+        d = self.du.single_def(l)
+        if not d or d[2] != "assign":
+            return None
+        rv = d[3]["rv"]
+        dbi = d[0]
+        if rv["k"] == "use":
+            p = lib.op_place(rv["op"])
+            if p is not None and p.get("p") and p["p"] == [p["p"][0]] and isinstance(p["p"][0], dict) and p["p"][0].get("of") == "tuple" and p["p"][0].get("f") == 0:
+                # result .0 of a checked AddWithOverflow etc.
+                return self.range_of({"copy": {"l": p["l"]}}, dbi, depth - 1)
+            return self.range_of(rv["op"], dbi, depth - 1) if dbi == bi or lib.dominates(self.fn, dbi, bi) else None
+        if rv["k"] == "cast":
+            return self.range_of(rv["op"], dbi, depth - 1)
+        if rv["k"] == "binop":
+            a, b = self.range_of(rv["l"], dbi, depth - 1), self.range_of(rv["r"], dbi, depth - 1)
+            op = rv["op"].replace("WithOverflow", "").replace("Unchecked", "")
+            if op in ("Rem",) and b is not None and b[0] >= 1:
+                return (-(b[1] - 1), b[1] - 1)
+            if op == "BitAnd" and (a is not None or b is not None):
+                m = (b or a)
+                return (0, max(abs(m[0]), abs(m[1])))
+            if a is not None and b is not None:
+                if op == "Add":
+                    return (a[0] + b[0], a[1] + b[1])
+                if op == "Sub":
+                    return (a[0] - b[1], a[1] - b[0])
+                if op == "Mul":
+                    vals = [a[0] * b[0], a[0] * b[1], a[1] * b[0], a[1] * b[1]]
+                    return (min(vals), max(vals))
+        return None
